@@ -37,6 +37,7 @@ impl<RS: Read + Seek> SeekableChain<RS> {
                 r.seek(SeekFrom::Start(0)).unwrap();
                 (size, r)
             })
+            .filter(|(size, _)| *size > 0)
             .collect();
         let max_pos = chain.iter().map(|(size, _)| size).sum(); // todo saturizing...
         SeekableChain {
